@@ -5,7 +5,7 @@
 From QV Require Import Base.Bytes Crypto.Nib Crypto.SHA2.
 Local Open Scope N_scope.
 
-Definition wd := list hex.
+Definition wd := list nibble.
 
 Fixpoint wd_xor (a b : wd) : wd :=
   match a, b with x :: a', y :: b' => hex_xor x y :: wd_xor a' b' | _, _ => [] end.
@@ -23,13 +23,13 @@ Fixpoint wd_add_c (c : bool) (a b : wd) : wd :=
 Definition wd_add (a b : wd) : wd := wd_add_c false a b.
 
 (* one nibble of a right shift by r < 4 bits: lo is the nibble at this position, hi the next higher one *)
-Definition hex_shr0 (lo hi : hex) : hex := lo.
-Definition hex_shr (r : nat) : hex -> hex -> hex :=
+Definition hex_shr0 (lo hi : nibble) : nibble := lo.
+Definition hex_shr (r : nat) : nibble -> nibble -> nibble :=
   match r with O => hex_shr0 | 1%nat => hex_shr1 | 2%nat => hex_shr2 | _ => hex_shr3 end.
 
 (* xor of three shifted views of a word in one pass: view k starts at the nibble the result's
    nibble 0 comes from and must have one more element than nibbles are produced *)
-Fixpoint wd_sig3 (n : nat) (f1 f2 f3 : hex -> hex -> hex) (v1 v2 v3 : wd) : wd :=
+Fixpoint wd_sig3 (n : nat) (f1 f2 f3 : nibble -> nibble -> nibble) (v1 v2 v3 : wd) : wd :=
   match n with
   | O => []
   | S n' =>
